@@ -68,7 +68,10 @@ def cond_ok(cond, ln):
 
 
 I5 = st.integers(0, 5)
-COND = st.sampled_from([0, 0, 0, 0, 1, 2, 3, 4, 5])
+# (6 = the factory RAISES while "armed": a first, unjudged attempt runs with every such factory armed; the judged
+#  attempt runs after they have been disarmed and behaves like an unconditional offer)
+COND = st.sampled_from([0, 0, 0, 0, 1, 2, 3, 4, 5, 6, 6])
+ARMED = [False]
 
 
 def strategy(tier):
@@ -155,6 +158,8 @@ def run(case, ctx):
 
         def factory(adaptee, oid=oid, cond=cond):
             ch, _ = chain_of(adaptee)
+            if cond == 6 and ARMED[0]:
+                raise RuntimeError("factory %d fails this time" % oid)
             if not cond_ok(cond, len(ch)):
                 return None
             return Wrap(adaptee, oid)
@@ -222,6 +227,16 @@ def run(case, ctx):
     if any(c for _, _, c in offs):
         ctx.label("conditional-offer")
 
+    # ---- a first attempt during which some factories raise: whatever it does, it must not change what the next one finds
+    if any(c == 6 for _, _, c in offs):
+        ARMED[0] = True
+        try:
+            mgr.adapt(adaptee, T, None)
+            mgr.supports_protocol(adaptee, T)
+        except Exception:
+            ctx.label("first-attempt-raised")
+        finally:
+            ARMED[0] = False
     # ---- the implementation
     mode = case["mode"]
     sentinel = object()
